@@ -233,10 +233,16 @@ def validate_trace(module, tracefile, wd, timeout=900, constants=None, invariant
 # verdicts, evidence, known findings
 
 def load_known():
+    res = []
     p = os.path.join(ROOT, "known_findings.json")
-    if not os.path.exists(p):
-        return []
-    return json.load(open(p)).get("findings", [])
+    if os.path.exists(p):
+        res += json.load(open(p)).get("findings", [])
+    d = os.path.join(ROOT, "known_findings.d")
+    if os.path.isdir(d):
+        for fn in sorted(os.listdir(d)):
+            if fn.endswith(".json"):
+                res += json.load(open(os.path.join(d, fn))).get("findings", [])
+    return res
 
 
 def known_match(pid, tags):
